@@ -598,14 +598,14 @@ func c06GridPs() []float64 {
 var c06SpecialPs = []float64{0, 1, 1e-12, 1 - 1e-12, math.SmallestNonzeroFloat64, 1 - 0x1p-53, 0x1p-1022, 0.5, 1e-5, 1 - 1e-5}
 
 func c06Run(r *mon.Run) {
-	r.Rule("exhaustive: every HypergeometicDist{N,K,Draws} with 2<=N<=40 (thorough 80), 0<=K,Draws<=N, and every BinomialDist with N<=60 and P in {j/100, 1e-12, 1-1e-12, 1e-13, 1-1e-13, 3e-16, nextafter(1,0), 1-2^-52, 5e-324, 2^-1022, 1e-300, 1e-20}; random: binomial N<=1000 (P uniform, log-uniform near 0 and near 1, j/N, special values) and hypergeometric N<=1000 (uniform and extreme K/Draws shapes; K and Draws each within 6 of 0 or of N in all 196 combinations at N in {1000,999,600,101,100} and random N; K, Draws log-uniform from 0 or from N). Per distribution: Bounds, Step, Mean, Variance, NormalApprox and PMF+CDF at every integer and half-integer from 2 below to 2 above the support, at -0.5, -1e-300, -0, one ulp either side of integers, +-1e6 beyond, +-2^40, and random fractions. The points of a case are queried in ascending, descending or random order (chosen per case), then 6 of them again on a distribution value constructed anew; history cases query a sparse out-of-order subset first and then the whole grid in ascending order on a new equal value; every answer, repeated or not, is judged against the exact law. Mixed histories (one goroutine, nothing else running): a HypergeometicDist{N,K,Draws} and a BinomialDist whose N is one of N, K, N-K, Draws, N-Draws are called alternately (B,H,B / H,B,H / random rounds), the binomial at k where C(n,k) is a coefficient of the preceding hypergeometric call (k in {Draws, N-Draws, the hypergeometric k, K, ...}); families-overlap: binomial, hypergeometric and mixed cases of a common N side by side on the worker pool. A case (one distribution with its query sequence, or one mixed history) is non-trivial when it hits a class; distinct by hash of (kind, parameters, sequence).")
+	r.Rule("exhaustive: every HypergeometicDist{N,K,Draws} with 2<=N<=40 (thorough 80), 0<=K,Draws<=N, and every BinomialDist with N<=60 and P in {j/100, 1e-12, 1-1e-12, 1e-13, 1-1e-13, 3e-16, nextafter(1,0), 1-2^-52, 5e-324, 2^-1022, 1e-300, 1e-20}; random: binomial N<=1000 (P uniform, log-uniform near 0 and near 1, j/N, special values) and hypergeometric N<=1000, plus populations of 1001..3000 (thorough 12000) at log-uniform, round and uniform sizes with central, off-centre, narrow and wide supports (uniform and extreme K/Draws shapes; K and Draws each within 6 of 0 or of N in all 196 combinations at N in {1000,999,600,101,100} and random N; K, Draws log-uniform from 0 or from N). Per distribution: Bounds, Step, Mean, Variance, NormalApprox and PMF+CDF at every integer and half-integer from 2 below to 2 above the support, at -0.5, -1e-300, -0, one ulp either side of integers, +-1e6 beyond, +-2^40, and random fractions. The points of a case are queried in ascending, descending or random order (chosen per case), then 6 of them again on a distribution value constructed anew; history cases query a sparse out-of-order subset first and then the whole grid in ascending order on a new equal value; every answer, repeated or not, is judged against the exact law. Mixed histories (one goroutine, nothing else running): a HypergeometicDist{N,K,Draws} and a BinomialDist whose N is one of N, K, N-K, Draws, N-Draws are called alternately (B,H,B / H,B,H / random rounds), the binomial at k where C(n,k) is a coefficient of the preceding hypergeometric call (k in {Draws, N-Draws, the hypergeometric k, K, ...}); families-overlap: binomial, hypergeometric and mixed cases of a common N side by side on the worker pool. A case (one distribution with its query sequence, or one mixed history) is non-trivial when it hits a class; distinct by hash of (kind, parameters, sequence).")
 	r.Assume("reference: exact big.Int probabilities (all hypergeometric; binomial N<=60 with P the exact dyadic value of the float64), 384-bit big.Float for binomial N>60 (relative error < 2^-370); moments computed from the reference PMF; all cross-checked at start-up against subset/outcome enumeration, closed-form moments, gonum's incomplete beta and textbook constants",
 		"tolerances: 1e-10 absolute for PMF and CDF inside the support (the statement's number), exact 0/1 outside; moments relative: 1e-12*|value| + 2 subnormal quanta (hypergeometric: + 8*2^-53*Draws for evaluations through K/N), exactly 0 when the moment is 0; NormalApprox.Sigma = sqrt of a variance within that tolerance, to 1e-12 relative; for P in {0,1} Bounds may be 0..N or the single mass point",
 		"a repeated query need not be bit-identical to the first (the statement's 1e-10 leaves the last bits free): both are judged against the exact law; the drift and the number of non-identical repeats are recorded only",
 		"the statement has no condition on the calls made earlier in the process: an answer of a mixed history (the other family called in between) is judged against the exact law with the same tolerances",
 		"NaN k is not monitored; huge finite and infinite k are judged as points below/above the support")
 	r.Gate("hg-k-below-mode", "hg-k-above-mode", "hg-k-at-mode", "hg-Draws<N/2", "hg-Draws>N/2", "hg-Draws=N/2", "hg-lower-bound>0",
-		"hg-Draws=N", "hg-Draws=0", "hg-K-in-{0,N}", "hg-one-point-support", "hg-support>=3-points", "hg-N>80",
+		"hg-Draws=N", "hg-Draws=0", "hg-K-in-{0,N}", "hg-one-point-support", "hg-support>=3-points", "hg-N>80", "hg-N>1000", "hg-N>2000", "hg-N>1000-wide-support",
 		"binom-k=N-1", "binom-P=0", "binom-P=1", "binom-P-within-1e-12-of-0", "binom-P-within-1e-12-of-1",
 		"binom-threshold-size", "hyperg-threshold-size", "binom-N=0", "binom-N=1", "binom-N-21..60", "binom-N>60", "binom-N=1000", "binom-proper", "binom-k-below-mode", "binom-k-above-mode",
 		"k-half-integer", "k-other-fraction", "k-in-(-1,0)", "k-negative-fraction", "k-just-below-integer",
@@ -776,6 +776,50 @@ func c06Run(r *mon.Run) {
 			k, d = n-rng.Range(0, 30), n-rng.Range(0, 30)
 		}
 		c06Hyperg(w, n, k, d, 16)
+	})
+
+	// ---- populations beyond 1000 (the statement puts no upper limit on a
+	// hypergeometric N): the far tails of the PMF leave the float64 range
+	// here, so anything formed as (tiny PMF) x (huge sum) shows (D23)
+	bigMax := r.Pick(3000, 12000)
+	r.Parallel("hyperg-large", r.Pick(64, 640), func(w *mon.W, i int) {
+		rng := w.Rng
+		var n int
+		switch i % 4 {
+		case 0:
+			n = int(rng.LogUniform(1001, float64(bigMax)))
+		case 1:
+			n = []int{1024, 1100, 1200, 1500, 2000, 2048, 2500, 3000, 4096, 5000, 6000, 8192, 10000, 12000}[rng.Intn(14)]
+			if n > bigMax {
+				n = bigMax
+			}
+			n += rng.Range(0, 2)
+		default:
+			n = rng.Range(1001, bigMax)
+		}
+		var k, d int
+		switch (i / 4) % 8 {
+		case 0:
+			k, d = n/2, n/2
+		case 1:
+			k, d = n/2+rng.Range(-10, 10), n/2+rng.Range(-10, 10)
+		case 2:
+			k, d = n/3+rng.Range(-5, 5), n/2+rng.Range(-5, 5)
+		case 3:
+			k, d = rng.Range(n/10, n/2), rng.Range(n/2, n-n/10)
+		case 4:
+			k, d = rng.Range(0, n), rng.Range(0, n)
+		case 5:
+			k, d = n-rng.Range(0, n/4), n-rng.Range(0, n/4)
+		case 6:
+			k, d = rng.Range(0, n/20), rng.Range(0, n)
+		default:
+			k, d = rng.Range(n/4, 3*n/4), rng.Range(n/4, 3*n/4)
+		}
+		w.Hit("hg-N>1000")
+		w.HitIf(n > 2000, "hg-N>2000")
+		w.HitIf(k > n/4 && k < 3*n/4 && d > n/4 && d < 3*n/4, "hg-N>1000-wide-support")
+		c06Hyperg(w, n, k, d, 4)
 	})
 
 	// ---- hypergeometric corner shapes at large N: K and Draws each within 6
